@@ -1,6 +1,7 @@
 /- Driver commands for the query side: read plan / stats (C23, C24), cursor traces (C20), handle pool (C21). -/
 import Driver.Proto
 import BloomVerif.Model.ReadPlan
+import BloomVerif.Model.Stats
 import BloomVerif.Model.Cursor
 namespace Driver
 open BloomVerif
@@ -14,6 +15,10 @@ def pQBlock : P ReadPlan.QBlock := do
 def pQFile : P ReadPlan.QFile := do
   let ff ← pBool; let bs ← counted pQBlock
   pure ⟨ff, bs⟩
+
+def pSBlock : P Stats.SBlock := do
+  let q ← pQBlock; let bytes ← nat; let nm ← nat
+  pure ⟨q, bytes, List.range nm⟩
 
 def showPlan (p : ReadPlan.FilePlan) : String :=
   s!"{b2s p.opened} {b2s p.regionRead} {p.stats.length}" ++
@@ -60,6 +65,12 @@ def cmdQuery (cmd : String) : Option (P String) :=
   | "qplan" => some do
       let hb ← pBool; let fs ← counted pQFile
       pure (String.intercalate " | " (fs.map (fun f => showPlan (ReadPlan.filePlan hb f))))
+  | "qstats" => some do
+      let hb ← pBool; let bs ← counted pSBlock
+      let es := Stats.entries hb bs
+      let t := Stats.totals es
+      pure (s!"{es.length}" ++ String.join (es.map (fun e => s!" {e.off} " ++ (if e.skipped then "S" else "P") ++ s!" {e.rowsProcessed} {e.bytesProcessed}")) ++
+        s!" | {t.rowsScanned} {t.bytesScanned} {t.blocksProcessed} {t.blocksSkipped} {Stats.rowsMatched hb bs}")
   | "cur" => some do
       let evs ← counted pCurEv
       let rec go (s : Cursor.St) (i : Nat) : List Cursor.Ev → Except Nat Cursor.St
